@@ -343,8 +343,9 @@ def _core_import_calls(rng):
             ("btclib.core_import.watched_range", [G.mutate_text(rng, d), reply], {}),
             ("btclib.core_import.assert_imported", [[request], answers], {}),
             ("btclib.core_import.widened_range", [G.T([0, 999]), rng.choice([None, G.T([5, 2000]), G.T([2000, 5]), G.T([0]), G.T([])])], {}),
-            ("btclib.core_import.import_request", [d], rng.choice([{}, {"timestamp": 0}, {"key_range": G.T([0, 10])}, {"label": "é", "internal": True, "active": False},
-                                                                  {"next_index": 5}, {"key_range": None}])),
+            ("btclib.core_import.import_request", [d], rng.choice([{"active": False}, {"timestamp": 0, "active": False}, {"key_range": G.T([0, 10])},
+                                                                  {"label": "é", "internal": True, "active": False}, {}, {"next_index": 5},
+                                                                  {"key_range": None, "active": False}])),
             ("btclib.core_import.import_request", [G.mutate_text(rng, d)], {})]
 
 
@@ -355,7 +356,11 @@ def g_core_import(R, rng, n):
         for ep, args, kwargs in _core_import_calls(rng):
             r = rng.random()
             a = list(args)
-            if r > 0.12:
+            if ep.endswith("widened_range"):
+                # two declared `tuple[int, int]` ranges (configuration, not a reply): any pair of integers
+                pair = lambda: G.T([rng.choice([0, 1, 5, 999, 1000, 2**31 - 1, 2**31, -1]) for _ in range(2)])  # noqa: E731
+                a = [pair(), rng.choice([None, pair()])]
+            elif r > 0.12:
                 i = rng.randrange(len(a))
                 if isinstance(a[i], (dict, list)) and not (isinstance(a[i], dict) and a[i] and set(a[i]) <= {"t", "l"}):
                     a[i] = G.mutate_json(rng, a[i])
